@@ -293,11 +293,20 @@ def rule_r3(chk, prog):
               loc=dm.loc(init), nontrivial=True)
     # __next__ hands out the pickled base iff present, else the live list
     nx = dm.func('TaskGenerator.__next__')
-    tasks = [c for c in calls_in(nx) if call_name(c) == 'Task']
+    scopes = [nx]
+    for c in calls_in(nx):
+        # construction delegated to a method of the generator (one level)
+        if isinstance(c.func, ast.Attribute) and isinstance(
+                c.func.value, ast.Name) and c.func.value.id == 'self':
+            q = f'TaskGenerator.{c.func.attr}'
+            if q in dm.funcs and dm.funcs[q] not in scopes:
+                scopes.append(dm.funcs[q])
+    tasks = [(sc, c) for sc in scopes for c in calls_in(sc)
+             if call_name(c) == 'Task']
     chk.floor('C05.R3', 'Task constructions in __next__', len(tasks), 2)
-    for c in tasks:
+    for (sc, c) in tasks:
         base = unparse(c.args[1])
-        facts = facts_at(nx, c)
+        facts = facts_at(sc, c)
         if base == 'self.pickled_exprs':
             ok = ('self.pickled_exprs', True) in facts
         else:
@@ -559,6 +568,14 @@ def rule_r4(chk, prog, rid='C05.R4'):
     w = dm.func('_worker')
     cfg = cfg_of(w)
     RD = reaching_defs(cfg, params_of(w))
+    tpar = params_of(w)[0]
+    # the cache: the (module-level) name that receives the unpickled base
+    cache_var = None
+    for st in walk_no_nested(w):
+        if isinstance(st, ast.Assign) and unparse(
+                st.value) == f'pickle.loads({tpar}.exprs)' and isinstance(
+                    st.targets[0], ast.Name):
+            cache_var = st.targets[0].id
     simp_calls = [c for c in calls_in(w) if call_name(c) == '_simp']
     chk.floor(rid, '_simp calls in _worker', len(simp_calls), 1)
     for c in simp_calls:
@@ -568,32 +585,53 @@ def rule_r4(chk, prog, rid='C05.R4'):
             base, ast.Name) else ()
         vals = sorted(unparse(d.ast.value) for d in ds if d != 'param'
                       and isinstance(d.ast, ast.Assign))
-        ok = vals == ['__cached_exprs', 'task.exprs']
+        ok = len(vals) == 2 and f'{tpar}.exprs' in vals and all(
+            v == f'{tpar}.exprs' or v == cache_var for v in vals)
         chk.check(rid, 'strategy_ddmin._worker', c, ok,
                   f'the base a worker applies proposals to comes from '
                   f'{vals}; expected the task (directly or through the '
                   'digest-checked cache)', loc=dm.loc(c), nontrivial=True)
     # cache read dominated by the hash comparison / refresh
-    head = cfg.entry
     reads = [n for n in cfg.nodes if n.kind == 'stmt' and isinstance(
-        n.ast, ast.Assign) and unparse(n.ast.value) == '__cached_exprs']
+        n.ast, ast.Assign) and unparse(n.ast.value) == cache_var]
+    if cache_var is None or not reads:
+        raise AnalysisError('strategy_ddmin._worker: worker-side cache of '
+                            'the unpickled base not recognised')
     for rn in reads:
         paths = enumerate_paths(cfg, cfg.entry, lambda x: x is rn)
         okc = True
         for p in paths:
             if p.end is not rn:
                 continue
+            # local digest of the task's base on this path
+            dig = [unparse(n.ast.targets[0]) for n in p.nodes
+                   if n.kind == 'stmt' and isinstance(n.ast, ast.Assign)
+                   and unparse(n.ast.value) == f'hash({tpar}.exprs)']
             fresh = any(n.kind == 'stmt' and isinstance(n.ast, ast.Assign)
-                        and unparse(n.ast.targets[0]) == '__cached_exprs'
-                        and 'pickle.loads(task.exprs)' in unparse(
-                            n.ast.value) for n in p.nodes)
-            samehash = ('__cached_exprs_hash == hashval', True) in p.facts
-            hv = any(n.kind == 'stmt' and isinstance(n.ast, ast.Assign)
-                     and unparse(n.ast.targets[0]) == 'hashval' and unparse(
-                         n.ast.value) == 'hash(task.exprs)' for n in p.nodes)
-            upd = any(n.kind == 'stmt' and isinstance(n.ast, ast.Assign)
-                      and unparse(n.ast.targets[0]) == '__cached_exprs_hash'
-                      and unparse(n.ast.value) == 'hashval' for n in p.nodes)
+                        and unparse(n.ast.targets[0]) == cache_var
+                        and unparse(n.ast.value) ==
+                        f'pickle.loads({tpar}.exprs)' for n in p.nodes)
+            hv = bool(dig)
+            d = dig[-1] if dig else '?'
+            # the remembered digest: a module-level name compared with d
+            samehash = False
+            remembered = None
+            for (t, pol) in p.facts:
+                for (a, b, eq) in ((f' == {d}', None, True),
+                                   (f' != {d}', None, False)):
+                    if t.endswith(a):
+                        remembered = t[:-len(a)]
+                        if pol == eq:
+                            samehash = True
+                for (a, eq) in ((f'{d} == ', True), (f'{d} != ', False)):
+                    if t.startswith(a):
+                        remembered = t[len(a):]
+                        if pol == eq:
+                            samehash = True
+            upd = remembered is not None and any(
+                n.kind == 'stmt' and isinstance(n.ast, ast.Assign)
+                and unparse(n.ast.targets[0]) == remembered
+                and unparse(n.ast.value) == d for n in p.nodes)
             if not (hv and ((fresh and upd) or (samehash and not fresh))):
                 okc = False
         chk.check(rid, 'strategy_ddmin._worker', rn.ast, okc,
